@@ -15,7 +15,9 @@ def solve_one(ob, timeout_ms=10000, use_cvc5=True):
         return ob
     s = z3.Solver()
     quantified = any(_has_quant(c) for c in list(ob.pc) + [ob.goal])
-    s.set("timeout", min(timeout_ms, 4000) if quantified else timeout_ms)
+    stringy = "str." in ob.goal.sexpr() or "re." in ob.goal.sexpr()
+    first_budget = min(timeout_ms, 4000) if quantified else (min(timeout_ms, 2500) if stringy else timeout_ms)
+    s.set("timeout", first_budget)
     for c in ob.pc:
         s.add(c)
     s.add(z3.Not(ob.goal))
